@@ -141,7 +141,7 @@ def prepare(repo: str, scratch: str, only_files=None):
                 tail_fix = True
             else:
                 tail_fix = False
-            text += '//@K-BEGIN%s\n#[cfg(kani)]\nmod verif_kani {\n#![allow(unused_imports, dead_code, unused_variables, unused_mut, non_snake_case)]\nuse super::*;\n' % (' notrail' if tail_fix else '') + h + '\n}\n//@K-END\n'
+            text += '//@K-BEGIN%s\n#[cfg(kani)]\npub(crate) mod verif_kani {\n#![allow(unused_imports, dead_code, unused_variables, unused_mut, non_snake_case)]\nuse super::*;\n' % (' notrail' if tail_fix else '') + h + '\n}\n//@K-END\n'
         # self-check
         back = _restore(text)
         if '//@K-BEGIN notrail' in text and back.endswith('\n'):
@@ -259,6 +259,90 @@ def run_harness(scratch: str, target: str, harness: str, timeout=600, mem_gb=20,
     if vt:
         res['verification_time_s'] = float(vt.group(1))
     return res
+
+
+def _classify(failed_checks):
+    kinds = set()
+    for c in failed_checks:
+        d = c['description']
+        if 'unwinding assertion' in d or c.get('category') == 'unwind':
+            kinds.add('unwind')
+        elif 'is not currently supported' in d or 'unsupported' in d.lower() or c.get('category') == 'unsupported_construct':
+            kinds.add('unsupported')
+        else:
+            kinds.add('assertion')
+    return kinds
+
+
+def run_batch(scratch: str, target: str, harnesses, jobs=8, harness_timeout=600, mem_gb=20, wall_timeout=None):
+    """One `cargo kani` invocation for many harnesses (exact names), verified in parallel.
+    Returns {full_name: result dict} in the same shape as run_harness."""
+    if not harnesses:
+        return {}
+    outj = os.path.join(scratch, 'kani-export-%d.json' % int(time.time() * 1000))
+    cmd = ['cargo', 'kani', '--target-dir', target, '--exact'] + KANI_FLAGS + ['-j', str(jobs), '--output-format', 'terse',
+           '--export-json', outj, '--harness-timeout', '%ds' % harness_timeout]
+    for h in harnesses:
+        cmd += ['--harness', h]
+    t0 = time.time()
+    proc = subprocess.Popen(cmd, cwd=scratch, env=kani_env(), stdout=subprocess.PIPE, stderr=subprocess.STDOUT, text=True, preexec_fn=_limits(mem_gb))
+    wall = wall_timeout or (harness_timeout * (1 + len(harnesses) // max(jobs, 1)) + 600)
+    try:
+        out, _ = proc.communicate(timeout=wall)
+    except subprocess.TimeoutExpired:
+        try:
+            os.killpg(proc.pid, signal.SIGKILL)
+        except ProcessLookupError:
+            pass
+        out, _ = proc.communicate()
+    results = {}
+    j = None
+    if os.path.exists(outj):
+        try:
+            j = json.load(open(outj))
+        except Exception:
+            j = None
+    cmd_s = ' '.join(cmd[:cmd.index('--harness')]) + ' --harness <name>'
+    if j:
+        stats = {c['harness_id']: c for c in j.get('cbmc', [])}
+        pd = {c['harness_id']: c['property_details'] for c in j.get('property_details', [])}
+        for r in j.get('verification_results', {}).get('results', []):
+            hid = r['harness_id']
+            checks = r.get('checks', [])
+            failed = [dict(name='%s.%s.%s' % (c.get('function'), c.get('category'), c.get('id')), description=str(c.get('description', '')).strip('"'),
+                           category=c.get('category'),
+                           location='%s:%s:%s in function %s' % (c.get('location', {}).get('file'), c.get('location', {}).get('line'), c.get('location', {}).get('column'), c.get('function')))
+                      for c in checks if c.get('status') in ('Failure', 'Undetermined')]
+            covers = [dict(status=c['status'].upper(), description=str(c.get('description', '')).strip('"')) for c in checks if c.get('category') == 'cover']
+            res = dict(harness=hid, seconds=round(r.get('duration_ms', 0) / 1000.0, 1), cmd=cmd_s, checks=pd.get(hid, {}).get('total_properties', len(checks)),
+                       failed_checks=failed, covers=covers, tail='')
+            st = r.get('status')
+            if st == 'Success':
+                res['status'] = 'proved'
+            elif st in ('Failure', 'Failed'):
+                kinds = _classify(failed)
+                if 'assertion' in kinds or not kinds:
+                    res['status'] = 'failed'
+                else:
+                    res['status'] = 'undecided'
+                    res['reason'] = ','.join(sorted(kinds))
+            else:
+                res['status'] = 'error'
+                res['reason'] = str(st)
+            cs = stats.get(hid, {}).get('cbmc_stats', {})
+            res['cbmc'] = dict(symex_s=cs.get('runtime_symex_s'), solver_s=cs.get('runtime_solver_s'), vccs=cs.get('vccs_generated'), vccs_remaining=cs.get('vccs_remaining'),
+                               solver=stats.get(hid, {}).get('configuration', {}).get('solver'))
+            results[hid] = res
+    for h in harnesses:
+        if h not in results:
+            # timed out / crashed / OOM inside the batch: classify from the terse log
+            status = 'error'
+            if re.search(r'timed out|TIMEOUT', out) :
+                status = 'timeout'
+            if 'out of memory' in out.lower() or 'bad_alloc' in out:
+                status = 'oom'
+            results[h] = dict(harness=h, seconds=round(time.time() - t0, 1), cmd=cmd_s, checks=0, failed_checks=[], covers=[], status=status, tail=out[-2000:])
+    return results
 
 
 def list_harnesses(scratch_src_dir=None):
